@@ -23,8 +23,12 @@ import (
 	"fmt"
 	"hash/crc32"
 	"io"
+	"io/ioutil"
 	"math"
 	"math/rand"
+	"os"
+	"os/exec"
+	"path/filepath"
 	"sort"
 	"strconv"
 	"strings"
@@ -65,6 +69,9 @@ type cdDrv struct {
 	nbigent, nexact, nover, n64k                int
 	ntrunc, ncorrupt, npanic, nerrpath, nhuge   int
 	bytesTotal                                  int64
+	nhugeRun, ncrash                            int
+	hugeLeft                                    int    // corruptions with a huge length still to be run in a child process
+	scratch                                     string // directory for the child's input
 	truncClasses, corruptClasses, corruptFields map[string]int
 }
 
@@ -844,12 +851,15 @@ func (d *cdDrv) explore(s *cdStream, full bool, samples int, payloadCorrupt bool
 			v := binary.BigEndian.Uint64(b[:])
 			// a length or count between 32 MB and 2^47 would make the decoder allocate that
 			// much before it reads anything; such cases are counted, not executed in-process
-			if f.name != "commit" && v > 32<<20 && v < 1<<47 {
+			// (above 2^48 bytes makeslice panics instead, which is recoverable)
+			if f.name != "commit" && (v > 32<<20 || (f.name == "count" && v > 1<<16)) && v < 1<<50 {
 				d.nhuge++
-				return
-			}
-			if f.name == "count" && v > 1<<16 && v < 1<<47 {
-				d.nhuge++
+				if d.hugeLeft > 0 {
+					d.hugeLeft--
+					raw[pos] = nb
+					d.hugeChild(s, raw, f, pos, old, nb)
+					raw[pos] = old
+				}
 				return
 			}
 			if v > math.MaxInt32 {
@@ -896,6 +906,67 @@ func (d *cdDrv) explore(s *cdStream, full bool, samples int, payloadCorrupt bool
 
 func sortInts(a []int) { sort.Ints(a) }
 
+// hugeChild runs one corrupted stream in a child process (address space limited to 8 GB),
+// because a decoder that allocates what a damaged length prefix says can take the whole
+// process down with a fatal, unrecoverable out-of-memory error
+func (d *cdDrv) hugeChild(s *cdStream, raw []byte, f cdField, pos int, old, nb byte) {
+	file := filepath.Join(d.scratch, fmt.Sprintf("huge-%d.bin", d.nhugeRun))
+	d.nhugeRun++
+	if err := ioutil.WriteFile(file, raw, 0644); err != nil {
+		return
+	}
+	defer os.Remove(file)
+	cmd := exec.Command("/bin/sh", "-c", fmt.Sprintf("ulimit -v 8388608; exec %q codecsim -child %q -childv2=%v -childbuf=%v -childlocal %d -childremote %d -o none",
+		os.Args[0], file, s.v2, s.buffered, s.local, s.rem))
+	var so, se bytes.Buffer
+	cmd.Stdout, cmd.Stderr = &so, &se
+	err := cmd.Run()
+	got, class, text := []string{}, "crash", ""
+	for _, l := range strings.Split(so.String(), "\n") {
+		if strings.HasPrefix(l, "CHILD ") {
+			var r struct {
+				Got   []string
+				Class string
+				Text  string
+			}
+			if json.Unmarshal([]byte(l[6:]), &r) == nil {
+				got, class, text = r.Got, r.Class, r.Text
+			}
+		}
+	}
+	if class == "crash" {
+		text = strings.SplitN(se.String(), "\n", 3)[0]
+		if len(text) > 120 {
+			text = text[:120]
+		}
+		if err == nil {
+			return // no result line but a clean exit: not a case
+		}
+		d.ncrash++
+	}
+	if got == nil {
+		got = []string{}
+	}
+	d.ncorrupt++
+	d.corruptClasses[class]++
+	d.corruptFields[f.name]++
+	d.tw.Emit(trace.M{"ev": "corrupt", "pos": pos, "frame": f.frame, "field": f.name, "old": int(old), "new": int(nb),
+		"newlen": math.MaxInt32, "remain": f.remain, "got": got, "errclass": class, "errtext": text})
+}
+
+func cdChild(file string, v2, buffered bool, local, remote uint64) error {
+	raw, err := ioutil.ReadFile(file)
+	if err != nil {
+		return err
+	}
+	d := &cdDrv{}
+	s := &cdStream{v2: v2, buffered: buffered, local: local, rem: remote}
+	got, class, text := d.decodeAll(s, raw, 64)
+	b, _ := json.Marshal(map[string]interface{}{"Got": got, "Class": class, "Text": text})
+	fmt.Printf("CHILD %s\n", b)
+	return nil
+}
+
 // ------------------------------------------------------------------ main
 
 func codecsim(args []string) error {
@@ -911,8 +982,17 @@ func codecsim(args []string) error {
 	bigp := fs.Float64("big", 0.08, "probability of a large entry")
 	seed := fs.Int64("seed", 1, "seed")
 	out := fs.String("o", "", "trace file")
+	huge := fs.Int("huge", 0, "corruptions producing a huge length that are run in a child process (per run)")
+	child := fs.String("child", "", "(internal) decode this file and print the result")
+	childv2 := fs.Bool("childv2", true, "(internal)")
+	childbuf := fs.Bool("childbuf", true, "(internal)")
+	childlocal := fs.Uint64("childlocal", 2, "(internal)")
+	childremote := fs.Uint64("childremote", 1, "(internal)")
 	if err := fs.Parse(args); err != nil {
 		return err
+	}
+	if *child != "" {
+		return cdChild(*child, *childv2, *childbuf, *childlocal, *childremote)
 	}
 	if *out == "" {
 		return fmt.Errorf("-o required")
@@ -923,7 +1003,7 @@ func codecsim(args []string) error {
 	}
 	defer tw.Close()
 	d := &cdDrv{tw: tw, rng: rand.New(rand.NewSource(*seed)), truncClasses: map[string]int{},
-		corruptClasses: map[string]int{}, corruptFields: map[string]int{}}
+		corruptClasses: map[string]int{}, corruptFields: map[string]int{}, hugeLeft: *huge, scratch: filepath.Dir(*out)}
 	for i := 0; i < 3; i++ {
 		b := make([]byte, 2*cdBuf)
 		d.rng.Read(b)
@@ -989,7 +1069,8 @@ func codecsim(args []string) error {
 		"frames_full": d.nfull, "frames_hb": d.nhb, "late_digests": d.nlate, "big_entries": d.nbigent,
 		"entries_at_buffer_size": d.nexact, "entries_over_buffer": d.nover, "entries_around_64k": d.n64k,
 		"truncations": d.ntrunc, "corruptions": d.ncorrupt, "panics": d.npanic, "decode_errors": d.nerrpath,
-		"corruptions_not_executed_huge_alloc": d.nhuge} {
+		"corruptions_with_huge_length":   d.nhuge,
+		"huge_length_cases_run_in_child": d.nhugeRun, "child_crashes": d.ncrash} {
 		sum[k] = v
 	}
 	sum["bytes"] = d.bytesTotal
